@@ -179,11 +179,17 @@ case("W10_lambda_returns_sum_self", "WASM: invalid module for a lambda whose res
      prog([fun(1, [], lam([2], let(3, match(('selfs', ('ss', 55, ['N', ('st', ['N', 'N'])])), (mc(55, 0, 4), V(4)), (mc(55, 1, pt(5, 6)), V(5))),
                                    ('selfs', ('ss', 55, ['N', ('st', ['N', 'N'])]))))), glet(7, app(1))],
           [match(app(7, NOW), (mc(55, 0, 4), V(4)), (mc(55, 1, pt(5, 6)), add(mul(V(5), L(100)), V(6))))], types=[(55, [F, T(F, F)])]), n=2, finding="W10")
+case("W10b_lambda_returns_sum_self_vm", "VM: the same lambda: the match on its result takes no arm (0.0; reference 1.0: self starts as the first constructor)",
+     prog([fun(1, [], lam([2], ('selfs', ('ss', 58, [None, ('st', ['N', 'N']), 'N'])))), glet(3, app(1))],
+          [match(app(3, L(1)), (mc(58, 0), L(1)), (mc(58, 1, ('pw',)), L(2)), (mc(58, 2, 4), L(3)))], types=[(58, [None, T(F, F), F])]), n=2, finding="W10")
 case("W11_tuple_match_binder_captured", "WASM: a closure capturing the payload binder of a constructor pattern inside a tuple pattern reads an address (reference 7)",
      prog([], [match(tup(con(56, 0, L(7)), L(1)), (mt(mc(56, 0, 1), MW), ('pipe', L(6), lam([2], V(1)))), (MW, L(0)))], types=[(56, [F, None])]), n=2, finding="W11")
 case("W12_self_pattern_var_in_tuple", "WASM: | | { let (a, b) = self  (a, b) }: a closure capturing a component of the result reads an address (reference 0)",
      prog([fun(1, [], lam([], let(pt(2, 3), ('selfs', ('st', ['N', 'N'])), tup(V(2), V(3))))), glet(4, app(1))],
           [let(pt(5, 6), app(4), let(7, lam([8], V(6)), app(7, L(1))))]), n=2, finding="W12")
+case("W13_instance_calls_instance_of_same_lambda", "WASM: the inner of two nested instances of one lambda loses its state (reference 2 5 9)",
+     prog([fun(1, [(2, Fn([F], F), None)], lam([3], add(add(app(2, L(3)), SELF), L(1)))), glet(4, app(1, lam([5], L(0)))), glet(6, app(1, V(4)))],
+          [app(6, L(0))]), n=3, finding="W13")
 case("PROJ_match_arm_value", "WASM: a projection as the value of a match arm: the OTHER arms give 0.0 (reference 8 4 4)",
      prog([], [let(1, tup(L(7), L(8)), match(NOW, (ml(0), ('proj', V(1), 1)), (MW, L(4))))]), n=3, finding="PROJ")
 case("PROJ_constructor_payload", "WASM: a projection as the payload of a constructor stores the address (reference 0)",
